@@ -44,8 +44,10 @@ ASSUMPTIONS = [
 SELFCHECKS = [W.selfcheck, S.selfcheck]
 
 NT = "nt:exec/queued-message-step-inside-handled-window"
-KINDS = ("ping", "version", "verack", "inv", "addr", "unknown")
-CLASS_KINDS = {"R": ("ping", "version"), "S": ("verack",), "Q": ("inv", "addr", "unknown")}
+KINDS = ("ping", "version", "verack", "inv", "addr", "unknown", "known")
+# "known": other protocol commands a peer sends unasked (feefilter, sendcmpct, sendheaders, getaddr, pong, getheaders,
+# getdata): commands the node does not answer itself, so by the statement they belong in the queue like unknown ones
+CLASS_KINDS = {"R": ("ping", "version"), "S": ("verack",), "Q": ("inv", "addr", "unknown", "known")}
 CLASS_WEIGHT = {"R": 4, "S": 3, "Q": 2}  # steps per message in the current code; only used to balance shards
 MAGIC = W.REGTEST
 IP_ASCII = b"::ffff:127.0.0.1"  # the 16 bytes bits itself puts into the address fields
@@ -95,6 +97,23 @@ def build_message(kind, peer, idx, salt):
         n = _count(salt, (1000, 999, 253, 0))  # 1000 is the most one addr message may carry
         ents = [(1700000000 + tag + j, 1, _h("addr", peer, idx, salt, j)[:16], 8333 + tag + j) for j in range(n)]
         return b"addr", W.addr_payload(ents)
+    if kind == "known":
+        d = _h("known", peer, idx, salt)
+        which = (salt >> 4) % 7
+        if which == 0:
+            return b"feefilter", d[:8]
+        if which == 1:
+            return b"sendcmpct", bytes([salt & 1]) + (1 + (salt >> 1) % 2).to_bytes(8, "little")
+        if which == 2:
+            return b"sendheaders", b""
+        if which == 3:
+            return b"getaddr", b""
+        if which == 4:
+            return b"pong", d[:8]
+        if which == 5:
+            n = (salt >> 8) % 3
+            return b"getheaders", (70015).to_bytes(4, "little") + W.compact_size(n) + b"".join(_h("gh", peer, idx, salt, j) for j in range(n)) + bytes(32)
+        return b"getdata", W.inv_payload([(2, d)])
     if kind == "unknown":
         d = _h("unk", peer, idx, salt)
         name = b"zq" + bytes(97 + b % 26 for b in d[:8])  # never a protocol command, no parser, no handler
